@@ -5,7 +5,7 @@ import os, sys, random, math
 from fractions import Fraction
 import vlib
 
-LEAN_TARGETS = ['CvxVerif.Props.C18', 'CvxVerif.Props.C18Quick', 'CvxVerif.Props.C18Info']
+LEAN_TARGETS = ['CvxVerif.Props.C18', 'CvxVerif.Props.C18Quick', 'CvxVerif.Props.C18Info', 'CvxVerif.Props.C18Calls']
 MODEL_FILES = ['CvxVerif.Model.MatCheck', 'CvxVerif.Gen.LapackWrap', 'CvxVerif.Gen.CallArgs']
 LEVEL = 'proof'
 TRUSTED = ['translator tools/translate/ccall2lean.py (regular-expression scan of lapack.c: guards of err_lapack, calls receiving &info, the macro body -> Gen/CallArgs.lean)',
